@@ -37,10 +37,10 @@ theorem hsCount_eq_zero {l : List String} (h : ∀ s ∈ l, isHS s = false) : hs
   intro s hs; simp [h s hs]
 
 theorem hsCount_single_false {s : String} (h : isHS s = false) : hsCount [s] = 0 := by
-  simp [hsCount, List.countP_cons, h]
+  simp [hsCount, h]
 
 theorem hsCount_single_true {s : String} (h : isHS s = true) : hsCount [s] = 1 := by
-  simp [hsCount, List.countP_cons, h]
+  simp [hsCount, h]
 
 /-- a list of events without handler starts -/
 def Quiet (l : List String) : Prop := ∀ s ∈ l, isHS s = false
@@ -135,7 +135,7 @@ theorem read_wlog (t : Transport) (cap : Nat) : (t.read cap).1.wlog = t.wlog := 
   unfold Transport.read; repeat' split
   all_goals (try simp [Transport.ev])
   all_goals (repeat' split)
-  all_goals (try simp [Transport.ev])
+  all_goals (try simp)
 
 theorem flush_wlog (t : Transport) : t.flush.1.wlog = t.wlog := by
   unfold Transport.flush; repeat' split
@@ -158,7 +158,7 @@ theorem read_ok {t t' : Transport} {cap : Nat} {bs : Bytes}
     · revert h; repeat' split
       all_goals (try simp [Transport.ev])
       all_goals (repeat' split)
-      all_goals (try simp [Transport.ev])
+      all_goals (try simp)
       all_goals (intro h1 h2; subst h1; subst h2; simp_all <;> omega)
 
 /-! ## Monotonicity of the async model (`TLe`) -/
